@@ -82,6 +82,7 @@ fn fault(stmt: StmtId, class: &str, seam: &str, kind: &str, arg: u32) -> PlanIte
             seam: seam.into(),
             kind: kind.into(),
             arg,
+            permanent: false,
         },
     }
 }
